@@ -24,6 +24,7 @@ type LoopSpec struct {
 	BodyReq    []*Clause // loop-body contract: requires
 	BodyEns    []*Clause // loop-body contract: ensures (checked at every back edge and `continue`)
 	ExitEns    []*Clause // loop-body contract: checked on exit edges taken from inside the body
+	DoneEns    []*Clause // loop-body contract: checked where the loop's own condition ends the loop (in the loop-head state)
 	Unroll     int
 	Modifies   []*Clause
 	Decreases  *Clause
@@ -331,6 +332,8 @@ func ParseContractFile(path, pkgPath string) (*ContractFile, error) {
 					ls.BodyEns = append(ls.BodyEns, newClause())
 				case "exit":
 					ls.ExitEns = append(ls.ExitEns, newClause())
+				case "done":
+					ls.DoneEns = append(ls.DoneEns, newClause())
 				default:
 					return nil, fmt.Errorf("%s:%d: bad loop body clause %q", path, ln, k2)
 				}
